@@ -27,7 +27,7 @@ RULE = (
     "binding configs, targets, filters, hardware requirement, commands, output processors), optionally with a loop "
     "combinator pair - plus token trees of every token class (nested list/object/job/file tokens with unicode "
     "strings and JSON scalars); a second workflow sharing the same DeploymentConfig/Target/FilterConfig objects is "
-    "saved CONCURRENTLY (in the enumerated second family the token trees share inner token objects between "
+    "saved CONCURRENTLY (enumerated families: incremental - saved, extended with ports on already persisted steps, saved again; shared -  the token trees share inner token objects between "
     "containers, so that two savers meet on one unsaved token), and two loads + one deep copy run concurrently, all through the FIFO database server with "
     "seeded service times. Oracle: structural equality (types, names, wiring, every public attribute, nested "
     "objects) original <-> loaded; deep copy equal with no persistent ids; exactly one row per shared entity; after "
@@ -137,7 +137,9 @@ def mutate_all(obj, seen=None, depth=0):
 
 def cases(tier):
     # second family: token trees in which inner token OBJECTS are shared between containers that are saved concurrently
-    return [{"share_tokens": True} for _ in range(400 if tier == "quick" else 30000)]
+    n = 400 if tier == "quick" else 30000
+    # incremental family: the workflow is saved, then ports are attached to steps that are already persisted, then it is saved again
+    return [{"share_tokens": True} for _ in range(n)] + [{"incremental": True} for _ in range(n // 2)]
 
 
 def gen_token(t, depth=0, pool=None):
@@ -194,6 +196,11 @@ def run(sim, params):
             for st in wf.steps.values():
                 if isinstance(st, ScheduleStep):
                     st.hardware_requirement = SimHardwareRequirement({"/A/0": [1.0, 2.0, 3.0, 4.0]})
+                    # bindings that fix some of the job directories (distinct values, some left unset; no tape draw)
+                    k = sum(map(ord, st.name)) % 4
+                    st.input_directory = (None, "/fix ü/in", None, "/fix/in2")[k]
+                    st.output_directory = ("/fix ü/out", "/fix/out", None, "/fix/out3")[k]
+                    st.tmp_directory = (None, "/fix/tmp", "/fix/tmp2", None)[k]
                     if with_filters:
                         st.binding_config = BindingConfig(
                             targets=list(st.binding_config.targets) + [Target(deployment=b.cfg, locations=2, service="svc", workdir="/w ü")],
@@ -226,6 +233,18 @@ def run(sim, params):
         else:
             dag.build(dag.generate(t, max_nodes=3), wf2)
         await asyncio.gather(asyncio.create_task(wf.save(db)), asyncio.create_task(wf2.save(db)))
+        if params.get("incremental"):
+            # build-save-extend-save, as a translator that persists while it builds: new ports on steps that already have a row
+            from streamflow.workflow.step import ExecuteStep, Transformer
+
+            grown = [st for st in wf.steps.values() if isinstance(st, (Transformer, ExecuteStep))][:2]
+            for i, st in enumerate(grown):
+                late_port = wf.create_port()
+                st.add_input_port(f"late_in{i}", late_port)
+                # (only wiring is added: an output port of an ExecuteStep would also change the step's parameters - its output
+                # processors - and a second save does not rewrite the row of a persisted step; that is outside this family)
+            sim.probe("incremental_save", len(grown))
+            await wf.save(db)
         port_id = next(iter(wf.ports.values())).persistent_id
         await asyncio.gather(*(asyncio.create_task(tk.save(db, port_id=port_id)) for tk in toks + extra))
         original = workflow_structure(wf)
